@@ -3,6 +3,7 @@ package graphsim
 import (
 	"context"
 	"fmt"
+	"github.com/cloudwego/eino/compose"
 	"strings"
 
 	"verifsim/core"
@@ -78,7 +79,12 @@ func runBasic(t *kernel.Tape, opt core.Opts, cfg basicCfg) *core.Outcome {
 	p := Generate(t, cfg.gen)
 	in := M{"in": fmt.Sprintf("x%d", t.Plan(3))}
 	call := &Call{Tag: "r0", Paradigm: cfg.paradigms[t.Plan(len(cfg.paradigms))], In: in, InCut: t.Plan(3), InPipe: t.PlanBool(50), StopAfter: -1}
-	o.Sample = p.Render() + " call=" + paradigmNames[call.Paradigm]
+	if p.Mode == ModePregel && t.PlanBool(20) {
+		// a step limit given with the call (lower or higher than the compiled one)
+		p.RuntimeMax = 1 + t.Plan(2*(len(p.Nodes)+10))
+		call.Opts = append(call.Opts, compose.WithRuntimeMaxSteps(p.RuntimeMax))
+	}
+	o.Sample = p.Render() + " call=" + paradigmNames[call.Paradigm] + fmt.Sprintf(" runtimeMax=%d", p.RuntimeMax)
 	o.PlanHash = planHash(o.Sample)
 	mr := RunModel(p, in)
 
@@ -146,6 +152,9 @@ func runBasic(t *kernel.Tape, opt core.Opts, cfg basicCfg) *core.Outcome {
 		if max == 0 {
 			max = len(p.Nodes) + 10
 		}
+		if p.RuntimeMax > 0 {
+			max = p.RuntimeMax // the limit configured for this call
+		}
 		cnt := map[string]int{}
 		for _, e := range env.execsOf("r0", true) {
 			if !strings.Contains(e.Path, "/") {
@@ -198,7 +207,7 @@ func init() {
 				gen:       GenOpts{Modes: []int{ModePregel}, MaxNodes: 7, Depth: 2, Cycles: true, Streams: true, Yields: 1, State: 0},
 				paradigms: []int{PInvoke, PInvoke, PStream, PCollect, PTransform}})
 		},
-		Rule: "1 in 4 runs draws a chain (1-5 stages: lambda, parallel of 2-3 lambdas with output keys, single/multi/stream branch over 2-3 alternatives, pass-through, nested graph) compared with sequential composition; the others draw a Pregel plan (1-7 nodes, fan-out/fan-in, single and multi-way branches with scripted outcome sequences, back edges, pass-through nodes, nested Pregel graphs to depth 2, step limit 1-12 or default), one call (any paradigm) and one schedule; compared with the reference superstep interpreter (result or error class, multiset of (node path, input) executions, per-node execution count <= limit, nested plan also run alone); non-trivial = >=2 live tasks and >=1 step with >=2 candidates; distinct = distinct (plan hash, schedule signature); 1 chain in 8 keeps an adjacency the library must refuse at build time (refused, or else sequential composition); a quarter of the plans type some outputs statically as any",
+		Rule: "1 in 4 runs draws a chain (1-5 stages: lambda, parallel of 2-3 lambdas with output keys, single/multi/stream branch over 2-3 alternatives, pass-through, nested graph) compared with sequential composition; the others draw a Pregel plan (1-7 nodes, fan-out/fan-in, single and multi-way branches with scripted outcome sequences, back edges, pass-through nodes, nested Pregel graphs to depth 2, step limit 1-12 or default), one call (any paradigm) and one schedule; compared with the reference superstep interpreter (result or error class, multiset of (node path, input) executions, per-node execution count <= limit, nested plan also run alone); non-trivial = >=2 live tasks and >=1 step with >=2 candidates; distinct = distinct (plan hash, schedule signature); 1 chain in 8 keeps an adjacency the library must refuse at build time (refused, or else sequential composition); a quarter of the plans type some outputs statically as any; 1 in 5 Pregel plans passes a step limit with the call (lower or higher than the compiled one)",
 		Real: graphReal, Stub: graphStub,
 		Faults: []string{"node completion order", "map-order perturbation", "step limit hit"},
 	})
